@@ -675,7 +675,9 @@ def install(R):
                 for p, o in reversed(list(zip(fs[:-1], offs[:-1]))):
                     val = z3.If(c < z(o) + z(p.shape[1]), p.get(r, c - z(o)), val)
                 return val
-            return NdArr.from_fn("hstack", (rows, tot), parts[0].kind, f)
+            res_ = NdArr.from_fn("hstack", (rows, tot), parts[0].kind, f)
+            E.trace.append(dict(op="hstack", parts=parts, result=res_))
+            return res_
         raise Unsupported("hstack of 1-d arrays")
 
     @reg("numpy.sort")
